@@ -282,4 +282,21 @@ example : rpcSizeOutcome 10 10 10 10 10 10 = .ok ∧ rpcSizeOutcome 10 10 11 0 0
     rpcSizeOutcome 100 10 11 0 0 0 = .calleeRecv ∧ rpcSizeOutcome 100 10 0 0 0 11 = .calleeSend ∧
     rpcSizeOutcome 10 100 0 0 11 0 = .callerRecv := by decide
 
+
+/-- **The framing the model describes is the one the source performs**, read off wire.rs on this run:
+writing = version frame, then ONE length-delimited frame holding the bincode (fixed-int) serialisation
+of the raw header (`route, headers` / `status, headers`, in that order; extensions are dropped), then
+ONE frame holding the body; reading = version frame, header frame or "unexpected EOF", bincode
+deserialisation, header conversion (the status code is checked), body frame or "unexpected EOF".
+Shapes recognised (`wireShapeChecked`): the version frame (`anemo`, u16 big-endian, a zero byte;
+read with `read_exact`), the codec (4-byte big-endian length, `max_frame_length` only when configured),
+the connection handshake (the listener sends, the dialer reads), the raw header structs and their
+conversions (names and values copied as they are, extensions start empty). -/
+theorem C15_framing_is_translated :
+    Gen.writeRequestGen = [.versionFrame, .splitParts, .rawHeader, .newBuffer, .bincodeFixintHeader, .sendHeaderFrame, .sendBodyFrame, .returnOk] ∧
+    Gen.writeResponseGen = [.versionFrame, .splitParts, .rawHeaderDropExtensions, .newBuffer, .bincodeFixintHeader, .sendHeaderFrame, .sendBodyFrame, .returnOk] ∧
+    Gen.readRequestGen = [.versionFrame, .recvHeaderFrameOrEof, .bincodeFixintHeader, .headerFromRaw, .recvBodyFrameOrEof, .assemble, .returnMessage] ∧
+    Gen.readResponseGen = [.versionFrame, .recvHeaderFrameOrEof, .bincodeFixintHeader, .headerFromRawChecked, .recvBodyFrameOrEof, .assemble, .returnMessage] ∧
+    Gen.wireShapeChecked = true := ⟨rfl, rfl, rfl, rfl, rfl⟩
+
 end Anemo
